@@ -1091,7 +1091,25 @@ def _m_zip(I, b, a, kw, node):
     seqs = [I.as_sequence(x) for x in a]
     if all(isinstance(s, list) for s in seqs):
         return PyList([tuple(t) for t in zip(*seqs)])
-    raise EngineLimit("zip over symbolic-length sequences")
+    if kw:
+        raise EngineLimit("zip with keyword arguments")
+    # symbolic length: the zip of sequences is as long as the shortest of them, element i is the tuple of the i-th elements
+    ss = [s if isinstance(s, SymSeq) else SymSeq(len(s), (lambda i, s=s: _pick(s, i)), "list") for s in seqs]
+    n = ss[0].n if not isinstance(ss[0].n, int) else z3.IntVal(ss[0].n)
+    for s_ in ss[1:]:
+        m = s_.n if not isinstance(s_.n, int) else z3.IntVal(s_.n)
+        n = z3.If(m < n, m, n)
+    return SymSeq(z3.simplify(n), lambda i, ss=ss: tuple(s_.elem(i) for s_ in ss), "zip")
+
+
+def _pick(items, i):
+    """element i (a z3 Int term or python int) of a python list of values"""
+    if isinstance(i, int):
+        return items[i]
+    cur = items[-1]
+    for j in range(len(items) - 2, -1, -1):
+        cur = ite_value(ival(i) == j, items[j], cur)
+    return cur
 
 
 def _quant_over(I, seq, forall):
